@@ -245,14 +245,14 @@ type AI struct {
 	depth    int
 	chain    []string
 	// hooks
-	OnReturn  func(fn *ssa.Function, ret *ssa.Return, st *aiState)
-	OnStore   func(fn *ssa.Function, st *ssa.Store, loc string, v *AV, s *aiState)
-	OnInstr   func(in ssa.Instruction, s *aiState)
-	Inline    func(cal *ssa.Function, call *ssa.Call, args []*AV) bool
-	MaxStates int
-	budget    int
-	taintRoots map[string]bool
-	forks      []outcome
+	OnReturn     func(fn *ssa.Function, ret *ssa.Return, st *aiState)
+	OnStore      func(fn *ssa.Function, st *ssa.Store, loc string, v *AV, s *aiState)
+	OnInstr      func(in ssa.Instruction, s *aiState)
+	Inline       func(cal *ssa.Function, call *ssa.Call, args []*AV) bool
+	MaxStates    int
+	budget       int
+	taintRoots   map[string]bool
+	forks        []outcome
 	nilSafeExtra map[string]bool
 }
 
